@@ -726,6 +726,110 @@ Qed.
 Example sample_ar_built : exists o, authn_request sample_ar = Some o /\ valid_doc live_table (to_tree live_table o) = true.
 Proof. eexists. split; [reflexivity|vm_compute; reflexivity]. Qed.
 
+(* ---------------------------------------------------------------- metadata.entity_descriptor (shell) *)
+Definition ci_EntityDescriptor := Eval vm_compute in get_ci k_md_EntityDescriptor.
+Lemma at_EntityDescriptor : class_at live_table k_md_EntityDescriptor = Some ci_EntityDescriptor. Proof. class_fact. Qed.
+Definition ci_Organization := Eval vm_compute in get_ci k_md_Organization.
+Lemma at_Organization : class_at live_table k_md_Organization = Some ci_Organization. Proof. class_fact. Qed.
+Definition ci_OrgName := Eval vm_compute in get_ci k_md_OrganizationName.
+Lemma at_OrgName : class_at live_table k_md_OrganizationName = Some ci_OrgName. Proof. class_fact. Qed.
+Definition ci_OrgDisplayName := Eval vm_compute in get_ci k_md_OrganizationDisplayName.
+Lemma at_OrgDisplayName : class_at live_table k_md_OrganizationDisplayName = Some ci_OrgDisplayName. Proof. class_fact. Qed.
+Definition ci_OrgURL := Eval vm_compute in get_ci k_md_OrganizationURL.
+Lemma at_OrgURL : class_at live_table k_md_OrganizationURL = Some ci_OrgURL. Proof. class_fact. Qed.
+Definition ci_mdExtensions := Eval vm_compute in get_ci k_md_Extensions.
+Lemma at_mdExtensions : class_at live_table k_md_Extensions = Some ci_mdExtensions. Proof. class_fact. Qed.
+
+Lemma owf_org_name tl : owf live_table (o_localized k_md_OrganizationName tl) = true.
+Proof. unfold o_localized. node' at_OrgName ci_OrgName. reflexivity. Qed.
+Lemma owf_org_display tl : owf live_table (o_localized k_md_OrganizationDisplayName tl) = true.
+Proof. unfold o_localized. node' at_OrgDisplayName ci_OrgDisplayName. reflexivity. Qed.
+Lemma owf_org_url tl : owf live_table (o_localized k_md_OrganizationURL tl) = true.
+Proof. unfold o_localized. node' at_OrgURL ci_OrgURL. reflexivity. Qed.
+
+Lemma localized_all k (H : forall tl, owf live_table (o_localized k tl) = true) l :
+  forallb (fun cb : cref * bool => cref_eqb (fst cb) (CK k) && snd cb)
+          (map (fun x => (obj_cref x, owf live_table x)) (map (o_localized k) l)) = true.
+Proof.
+  apply members_all. apply Forall_forall. intros x Hx. apply in_map_iff in Hx as [tl [<- _]].
+  split; [reflexivity|apply H].
+Qed.
+
+Definition org_present (o : orgv) : bool := match org_values o with [] => false | _ => true end.
+
+(* the organisation is schema-valid as soon as each of name, display_name and url is configured *)
+Lemma owf_organization n d u :
+  org_present n = true -> org_present d = true -> org_present u = true -> owf live_table (organization n d u) = true.
+Proof.
+  unfold org_present, organization. intros Hn Hd Hu.
+  pose proof (localized_all _ owf_org_name (org_values n)) as H1.
+  pose proof (localized_all _ owf_org_display (org_values d)) as H2.
+  pose proof (localized_all _ owf_org_url (org_values u)) as H3.
+  node' at_Organization ci_Organization. uk. unfold k_md_OrganizationName, k_md_OrganizationDisplayName, k_md_OrganizationURL in *.
+  rewrite H1, H2, H3, !map_length.
+  destruct (org_values n); [discriminate|]. destruct (org_values d); [discriminate|]. destruct (org_values u); [discriminate|].
+  reflexivity.
+Qed.
+
+Definition org_ok (o : option (orgv * orgv * orgv)) : bool :=
+  match o with Some (n, d, u) => org_present n && org_present d && org_present u | None => true end.
+
+Lemma owf_md_extensions c :
+  c <> [] -> forallb (ext_ok live_table ci_mdExtensions) c = true -> owf live_table (Obj k_md_Extensions [] None [] c) = true.
+Proof.
+  intros Hne Hall. rewrite owf_unfold, at_mdExtensions. unfold oattrs_ok. cbn -[ext_ok forallb]. cbn [forallb].
+  rewrite Hall. destruct c; [contradiction|reflexivity].
+Qed.
+
+Theorem owf_entity_descriptor a :
+  opt_lexb LDateTime (ed_valid_until a) = true -> org_ok (ed_org a) = true ->
+  forallb (valid live_table (CK k_md_ContactPerson)) (ed_contacts a) = true ->
+  forallb (ext_ok live_table ci_mdExtensions) (ed_ext a) = true ->
+  opt_valid k_md_IDPSSODescriptor (ed_idp a) = true -> opt_valid k_md_SPSSODescriptor (ed_sp a) = true ->
+  opt_valid k_md_AuthnAuthorityDescriptor (ed_aq a) = true -> opt_valid k_md_AttributeAuthorityDescriptor (ed_aa a) = true ->
+  opt_valid k_md_PDPDescriptor (ed_pdp a) = true ->
+  owf live_table (entity_descriptor a) = true.
+Proof.
+  intros Hvu Horg Hcp Hext H1 H2 H3 H4 H5. unfold entity_descriptor.
+  pose proof (raws_all _ _ Hcp) as HC.
+  pose proof (raw_opt _ _ H1) as R1. pose proof (raw_opt _ _ H2) as R2. pose proof (raw_opt _ _ H3) as R3.
+  pose proof (raw_opt _ _ H4) as R4. pose proof (raw_opt _ _ H5) as R5.
+  apply andb_true_iff in R1 as [_ R1]. apply andb_true_iff in R2 as [_ R2]. apply andb_true_iff in R3 as [_ R3].
+  apply andb_true_iff in R4 as [_ R4]. apply andb_true_iff in R5 as [_ R5].
+  assert (HE : (Datatypes.length (map (fun x : obj => (obj_cref x, owf live_table x))
+                    (match ed_ext a with [] => [] | c => [Obj k_md_Extensions [] None [] c] end)) <=? 1)
+               && forallb (fun cb : cref * bool => cref_eqb (fst cb) (CK k_md_Extensions) && snd cb)
+                    (map (fun x : obj => (obj_cref x, owf live_table x))
+                       (match ed_ext a with [] => [] | c => [Obj k_md_Extensions [] None [] c] end)) = true).
+  { destruct (ed_ext a) as [|x r] eqn:Ee; [reflexivity|]. cbn -[owf]. rewrite owf_md_extensions; [reflexivity|discriminate|exact Hext]. }
+  assert (HO : (Datatypes.length (map (fun x : obj => (obj_cref x, owf live_table x))
+                    (match ed_org a with Some (n, d, u) => [organization n d u] | None => [] end)) <=? 1)
+               && forallb (fun cb : cref * bool => cref_eqb (fst cb) (CK k_md_Organization) && snd cb)
+                    (map (fun x : obj => (obj_cref x, owf live_table x))
+                       (match ed_org a with Some (n, d, u) => [organization n d u] | None => [] end)) = true).
+  { destruct (ed_org a) as [[[n d] u]|]; [|reflexivity]. cbn [org_ok] in Horg.
+    apply andb_true_iff in Horg as [Horg Hu]. apply andb_true_iff in Horg as [Hn Hd].
+    cbn -[owf]. rewrite (owf_organization n d u Hn Hd Hu). reflexivity. }
+  node' at_EntityDescriptor ci_EntityDescriptor. uk.
+  unfold k_md_ContactPerson, k_md_IDPSSODescriptor, k_md_SPSSODescriptor, k_md_AuthnAuthorityDescriptor,
+    k_md_AttributeAuthorityDescriptor, k_md_PDPDescriptor, k_md_Extensions, k_md_Organization in *.
+  rewrite HC, R1, R2, R3, R4, R5, HE, HO. unfold opt_lexb in Hvu.
+  conj; leaf.
+Qed.
+
+Theorem entity_descriptor_valid a :
+  opt_lexb LDateTime (ed_valid_until a) = true -> org_ok (ed_org a) = true ->
+  forallb (valid live_table (CK k_md_ContactPerson)) (ed_contacts a) = true ->
+  forallb (ext_ok live_table ci_mdExtensions) (ed_ext a) = true ->
+  opt_valid k_md_IDPSSODescriptor (ed_idp a) = true -> opt_valid k_md_SPSSODescriptor (ed_sp a) = true ->
+  opt_valid k_md_AuthnAuthorityDescriptor (ed_aq a) = true -> opt_valid k_md_AttributeAuthorityDescriptor (ed_aa a) = true ->
+  opt_valid k_md_PDPDescriptor (ed_pdp a) = true ->
+  spec live_table (to_tree live_table (entity_descriptor a)).
+Proof.
+  intros. apply (doc_of_owf _ k_md_EntityDescriptor ci_EntityDescriptor);
+    [reflexivity|exact at_EntityDescriptor|elem_fact|apply owf_entity_descriptor; assumption].
+Qed.
+
 Lemma name_id_mapping_response_fixed_valid :
   forall entityid name_id irt status sg ob o,
     obs_ok ob -> opt_lexb LNCName irt = true -> opt_valid k_saml_NameID name_id = true ->
